@@ -5,6 +5,12 @@
                         fresh, acyclic, closed
      CHKT=<5 bits|NA>   the same on the outputs of tree_cse() with empty opt_subs
      T0=<status>        the extracted tree_cse model (empty opt_subs) against section T
+     T0R=<status>       only when T0 is UNMODELLED: the same generic tree_cse model (tree_cse is generic in the
+                        constructors, and so are its theorems) run with RELAXED constructors -- the library
+                        constructors, except that a function create() the arithmetic model does not know
+                        (EXN_UNMODELLED from c_f1 / c_f2 / c_fn) builds the plain node -- against section T.
+                        OK means: on this instance every such create() of the library acted as the plain
+                        constructor and the library's tree_cse output is the model's.  NA otherwise.
      T1=<status>        the extracted tree_cse model run with the library's opt_subs (section O)
                         against section C
      OP=<status>        the extracted opt_cse model against section O (the set of opt_subs entries)
@@ -136,6 +142,17 @@ let compare_model (m : ((expr * expr) list * expr list) res) (s : sect) : string
             | Err t' when t' = t -> "OK"
             | _ -> "DIFF " ^ t)
 
+(* the library constructors, with the plain node where a function create() is outside the arithmetic model *)
+let relaxed_ctors : ctors =
+  let fb (r : expr res) (plain : expr) : expr res =
+    match r with
+    | ErrExn c when small_of_n c = 97 -> Ok plain
+    | _ -> r in
+  { lib_ctors with
+    c_f1 = (fun c a -> fb (lib_ctors.c_f1 c a) (EF1 (c, a)));
+    c_f2 = (fun c a b -> fb (lib_ctors.c_f2 c a b) (EF2 (c, a, b)));
+    c_fn = (fun c l -> fb (lib_ctors.c_fn c l) (EFN (c, l))) }
+
 (* opt_subs as a sorted list of "key => value" texts *)
 let show_opt (m : (expr * expr) list) : string =
   String.concat " ;; " (List.sort compare (List.map (fun (k, v) -> norm k ^ " => " ^ norm v) m))
@@ -190,14 +207,15 @@ let () =
             let t = match sec "T" fields with Some b -> sect_of b | None -> Err "MISSING" in
             let o = match sec "O" fields with Some b -> b | None -> "MISSING" in
             let t0 = compare_model (tree_cse_lib [] es) t in
+            let t0r = if t0 = "UNMODELLED" then compare_model (tree_cse relaxed_ctors [] es) t else "NA" in
             let t1 = if is_err o || o = "MISSING" then "NA" else compare_model (tree_cse_lib (pairs_of o) es) c in
             let op = compare_opt (opt_cse_lib es) o in
             let cs = compare_model (cse_lib es) c in
-            Printf.printf "CHKC=%s\tCHKT=%s\tT0=%s\tT1=%s\tOP=%s\tCS=%s\tBS=%s\tWF=%s\tXC=%s\tGUARD=%s\n"
+            Printf.printf "CHKC=%s\tCHKT=%s\tT0=%s\tT1=%s\tOP=%s\tCS=%s\tBS=%s\tWF=%s\tXC=%s\tGUARD=%s\tT0R=%s\n"
               (check_sect es c) (check_sect es t) t0 t1 op cs (backsubst_status c)
               (if List.for_all (fun x -> wf x && tree_ok x) es then "1" else "0")
               (match excl_complete_run es with Ok true -> "1" | Ok false -> "0" | _ -> "?")
-              (if cse_guard es then "1" else "0")
+              (if cse_guard es then "1" else "0") t0r
       with
       | Unsupported m -> print_endline ("UNSUPPORTED " ^ m)
       | Failure m -> print_endline ("FAIL " ^ m)
